@@ -21,8 +21,15 @@ func vh_text_blob() {
 	b := vBytes("b", L)
 	d2, err2 := Marshal(vNT(typ), b)
 	vAssert(err2 == nil && refBytesEq(d2, b) && d2 != nil, "C12/text/bytes/bytes")
+	// into a nil []byte the bytes come back (an empty value has no bytes: nil-ness of a plain []byte target is
+	// not a documented distinction); into a non-nil buffer - "non-nil buffer is reused" - an empty value stays
+	// non-nil while null (below) makes it nil; the documented null/empty distinction is the **T target
 	var bb []byte
-	vAssert(Unmarshal(vNT(typ), d2, &bb) == nil && refBytesEq(bb, b) && bb != nil, "C02/text/bytes/roundtrip-empty-stays-non-null")
+	vAssert(Unmarshal(vNT(typ), d2, &bb) == nil && refBytesEq(bb, b), "C02/text/bytes/roundtrip")
+	buf := []byte("xy")
+	vAssert(Unmarshal(vNT(typ), d2, &buf) == nil && refBytesEq(buf, b) && buf != nil, "C02/text/bytes/roundtrip-empty-stays-non-null-in-a-reused-buffer")
+	var pb *[]byte
+	vAssert(Unmarshal(vNT(typ), d2, &pb) == nil && pb != nil && refBytesEq(*pb, b), "C02/text/bytes/value-into-pointer-pointer-is-non-nil")
 	// null: nil pointer marshals to null; null into *[]byte gives nil, into *string the zero value
 	var np *string
 	d3, err3 := Marshal(vNT(typ), np)
